@@ -30,7 +30,7 @@ def replay_witness(w):
 
 def jobs(tier, seed):
     js = th.tree_jobs(tier)
-    js += [dict(j, alpha=3) for j in th.KNOWN_DUP_JOBS]
+    js += [dict(dict(alpha=3), **j) for j in th.KNOWN_DUP_JOBS]
     return js
 
 META = dict(functions=th.TREE_FUNCTIONS, stubs=th.TREE_STUBS, assumptions=th.TREE_ASSUME, files=th.TREE_FILES)
